@@ -17,7 +17,7 @@ Decided (multi_template configurations):
     `depth + 1 < len` (super) and -1 after it, or is restored from a checkpoint; the layer rendered by a block call
     and by super() (after a successful push) is `instructions[depth]`; super() with no further layer returns Err.
 """
-from .. import cfg, flow, errflow, query
+from .. import cfg, flow, errflow, query, arms
 from ..facts import op_place, const_int
 
 EI = "minijinja::vm::Executor::eval_impl"
@@ -422,6 +422,30 @@ def run(ctx):
         ev = prog.fn(EI)
         lb = prog.fn(LB)
         pi = prog.fn(PI)
+        # ---- I10: an import exposes *exactly* the imported template's top-level names: in the handler that builds the
+        # module object every local of the frame is inserted - no path through the loop over the locals skips the insert
+        sw10 = arms.enum_switches(prog, ev, "minijinja::compiler::instructions::Instruction")
+        regs10 = arms.arm_regions(prog, ev, sw10[0][0], "minijinja::compiler::instructions::Instruction") if sw10 else {}
+        if "ExportLocals" in regs10:
+            reg = regs10["ExportLocals"]
+            ins = [c for c in arms.calls_in(ev, reg) if c.name.split("::")[-1] in ("insert", "push", "extend")]
+            loops = [(h, b) for h, b in cfg.natural_loops(ev) if h in reg and b <= reg | {h}]
+            ok10 = False
+            detail = "no loop over the frame's locals with an insert into the exported map found"
+            for h, body in loops:
+                inside = [c for c in ins if c.bb in body]
+                if not inside:
+                    continue
+                nexts = [c for c in arms.calls_in(ev, body) if c.name.endswith("::next")]
+                # every path from `next()` back to the loop header (another iteration) passes the insert
+                back = {t for (t, hh) in cfg.back_edges(ev) if hh == h}
+                ok10 = bool(nexts) and all(
+                    cfg.paths_must_pass(ev, n.target if n.target is not None else n.bb, [c.bb for c in inside], back)
+                    for n in nexts)
+                detail = "a path through the loop over the locals reaches the next iteration without inserting the local"
+            ctx.ob("C06.I10.import-exposes-every-top-level-name", tag + "eval_impl|ExportLocals", ok10, detail +
+                   ": the module object built for `{% import x as m %}` lacks names the imported template defines, while "
+                   "`{% from x import name %}` (a plain lookup in the import frame) still sees them", ev.loc)
         # ---- I1
         lcalls = ev.calls_to(LB)
         ctx.floor("C06.I1 load_blocks call sites in eval_impl" + tag, len(lcalls), 1)
